@@ -8,7 +8,7 @@ from ..expand import load_known
 from ..loops import dotted, find_env_loop
 from ..nf import NF, Scope, Poly, parse_expr
 from ..repo import Repo, loc, short, AnalysisError, param_names, bind_call
-from ..sem import OrderModel, Unknown, eval_order_formula, summarise_paths, active_summaries, same_ingredients, ingredient_tokens, result_position, split_conditional_assignments
+from ..sem import OrderModel, Unknown, eval_order_formula, summarise_paths, active_summaries, same_ingredients, ingredient_tokens, result_position, split_conditional_assignments, with_callees_inlined
 from ..sympath import enumerate_paths, PathEval
 
 EXPLANATION = (
@@ -17,7 +17,9 @@ EXPLANATION = (
     "compares its quantities, so it is compared with the documented table in a finite order model (worlds over {sum(feedback), best} and the "
     "maximise flag): in every world the enabled path stores the sign-adjusted fitness at index it % population, advances it by one and "
     "replaces the incumbent as a whole (fitness, iteration, parameters of that same index) when the candidate is better, keeps it as a whole "
-    "when it is worse. train_cmaes evaluates the candidate it wrote into the policy and reports the un-negated best fitness. Mean "
+    "when it is worse. train_cmaes evaluates the candidate it wrote into the policy and reports the un-negated best fitness. The evaluated "
+    "point and the point that enters the mean are one value: get_next_parameters (and the training loop) hand out the stored row; a projection "
+    "applied at hand-out is compared, as a normal form and path by path (`bounds is None` guards correlated), with what sample_population stores. Mean "
     "recombination, last_mean and the step-size cap are normal-form identities of update_search_distribution evaluated per path. flat_params / "
     "set_params are read as dataflow terms: both walk the leaves of nnx.state(net, nnx.Param) in pytree order, one concatenating the raveled "
     "leaves, the other cutting consecutive slices of prod(leaf.shape) (loop-carried offset evaluated symbolically). CEM: elites = top-k by "
@@ -28,7 +30,9 @@ TRUSTED = ["jax.tree_util.tree_leaves / tree_flatten / tree_unflatten use one de
 RULES = {
     "R1-weights": "weights == w / sum(w), w == log(mu + 0.5) - log1p(arange(int(mu))), mu == n_samples_per_update / 2; config stores int(mu)",
     "R2-incumbent": "order-world table of set_evaluation_feedback: fitness[k] := +-sum(feedback), it += 1, incumbent (fitness, iteration, samples[k]) replaced as a whole iff the candidate is better (ties free), k = it % population; "
-                    "best_* written nowhere else; train_cmaes sets the candidate it evaluates and un-negates the reported value",
+                    "best_* written nowhere else; train_cmaes sets the candidate it evaluates and un-negates the reported value; the evaluated point is the stored sample: get_next_parameters / the training loop hand out "
+                    "samples[k] as it is (a projection around it is accepted only when sample_population already stores rows projected in the same way, and is a violation when the stored rows are the raw draw that the mean recombines); "
+                    "best_params is the stored row or the value handed out for it; `config.<field> is None` guards are free booleans of the table",
     "R3-mean": "mean' == sum(weights[:,None] * samples[argsort(fitness)[:mu]], axis=0); last_mean' == old mean",
     "R4-step-size": "var' == var * exp(min(0.6, log_step_size_update))^2",
     "R7-covariance-form": "cov' == scalar * cov + c * outer(p, p) + c' * X^T diag(w) X [- c'' * Y^T diag(w) Y]: every added term is symmetric by construction, and the negative (active) quadratic form is the positive one with the worst mu candidates in place of the best (same centre, same step-size scaling, same weights)",
@@ -165,8 +169,11 @@ def r1_weights(ck, repo, nf):
 # ---- R2 ------------------------------------------------------------------------------------------------------------------------------------
 def r2_feedback_table(ck, repo, nf):
     q = CM + "set_evaluation_feedback"
-    fn = split_conditional_assignments(repo.func(q))
-    mi = fn._module
+    fn0 = repo.func(q)
+    # a sibling routine of the module that the feedback calls (e.g. get_next_parameters for the evaluated point) is read like its body
+    fn = split_conditional_assignments(with_callees_inlined(repo, fn0, q) or fn0)
+    mi = fn0._module
+    fn._module = mi
     cfg = nf.cfg_of(fn)
     ck._keep = getattr(ck, "_keep", []) + [fn]      # the CFG cache is keyed by id(fn)
     params = param_names(fn)
@@ -180,6 +187,8 @@ def r2_feedback_table(ck, repo, nf):
     MX = spec.ev(parse_expr(f"{CONF}.maximize"))
     K = spec.ev(parse_expr(f"{ST}.it % {CONF}.n_samples_per_update"))
     CAND = spec.ev(parse_expr(f"{POP}.samples[{ST}.it % {CONF}.n_samples_per_update]"))
+    # row k of the (population, parameters) matrix: samples[k] == samples[k, :] == samples[k, ...]
+    CAND_ROWS = [spec.ev(parse_expr(f"{POP}.samples[{ST}.it % {CONF}.n_samples_per_update, {rest}]")) for rest in (":", "...")]
     BEST, IT = old[f"{ST}.best_fitness"], old[f"{ST}.it"]
     model = OrderModel()
     model.cluster([F, BEST])
@@ -191,9 +200,30 @@ def r2_feedback_table(ck, repo, nf):
             model.derive(mn.single_atom(), "min", ci, 0, 1)
     sums = summarise_paths(nf, cfg, mi, q, env, old)
     ck.floor("feedback-paths", len(sums), 2)
+    # the evaluated point: what get_next_parameters hands out for this very state (its paths, over the objects of this function)
+    gq_ = CM + "get_next_parameters"
+    gfn_ = split_conditional_assignments(repo.func(gq_))
+    ck._keep.append(gfn_)
+    gpar_ = param_names(gfn_)
+    try:
+        gsums = summarise_paths(nf, nf.cfg_of(gfn_), gfn_._module, gq_, _mapped_env(gfn_, [CONF, ST, POP]), {f"{gpar_[1]}.{b}": v_ for b in BEST_FIELDS + ("it",) for v_ in [old[f"{ST}.{b}"]]}) if len(gpar_) >= 3 else []
+    except AnalysisError:
+        gsums = []
+    # guard clauses on optional fields of the configuration (`config.bounds is None`): the field is an input that the routine does not
+    # write, so the outcome of the test is a free boolean of the model
+    written = {dotted(t_) for n_ in ast.walk(fn) if isinstance(n_, (ast.Assign, ast.AugAssign, ast.AnnAssign)) for t_ in (n_.targets if isinstance(n_, ast.Assign) else [n_.target]) if isinstance(t_, ast.Attribute)}
+    flags = {}
+
+    def config_field(subject):
+        return re.fullmatch(rf"{re.escape(CONF)}(\.[A-Za-z_][A-Za-z_0-9]*)+", subject) is not None and subject not in written
+    for sm_ in sums + gsums:
+        sm_.conds = [_flag_none_tests(f_, flags, config_field) for f_ in sm_.conds]
+    for a_ in flags.values():
+        model.cluster([a_, Poly.const(0)])
     where = loc(mi, fn)
     viol, checked, kinds = {}, set(), set()
     n_worlds = 0
+    proj_cache = {}
     for w in model.worlds():
         n_worlds += 1
         try:
@@ -211,14 +241,36 @@ def r2_feedback_table(ck, repo, nf):
         got = {b: st.get(f"{ST}.{b}") for b in BEST_FIELDS}
         improved = {"best_fitness": fk, "best_fitness_it": IT, "best_params": CAND}
         kept = {b: old[f"{ST}.{b}"] for b in BEST_FIELDS}
+        # the parameters of the candidate: the stored row k, or the value that get_next_parameters hands out for it in this world
+        # (whether the two are one value is the obligation `same-index-as-feedback`)
+        variants = [improved] + [{**improved, "best_params": c_} for c_ in CAND_ROWS]
+        for gs in gsums:
+            try:
+                if gs.ret is not None and all(eval_order_formula(model, w, f_) for f_ in gs.conds):
+                    h_ = _strip_value_preserving(nf, gs.ret)
+                    if all(h_ != v_["best_params"] for v_ in variants) and not _unread(h_):
+                        variants.append({**improved, "best_params": h_})
+            except Unknown:
+                pass
 
         def agrees(tbl):
-            return all(got[b] is not None and model.resolve(w, got[b]) == model.resolve(w, tbl[b]) for b in BEST_FIELDS)
-        ok = (agrees(improved) if rel < 0 else agrees(kept) if rel > 0 else (agrees(improved) or agrees(kept)))
+            return all(got[b] is not None and model.resolve(w, _strip_value_preserving(nf, got[b]) if b == "best_params" else got[b]) == model.resolve(w, tbl[b]) for b in BEST_FIELDS)
+
+        def replaced():
+            return any(agrees(v_) for v_ in variants)
+        ok = (replaced() if rel < 0 else agrees(kept) if rel > 0 else (replaced() or agrees(kept)))
+        if not ok and rel <= 0 and got["best_params"] is not None and len(gpar_) >= 3:
+            # a projection of the stored row that sample_population has already applied (idempotent re-projection, judged in this world's
+            # `is None` outcomes) stores the row itself
+            lits = [f_ if model.sign(w, a_) != 0 else ("not", f_) for s_, a_ in flags.items() for f_ in [("opaque", f"Is({s_}, None)")]]
+            pr = _projection_of_stored_row(repo, nf, gfn_, _strip_value_preserving(nf, got["best_params"]), [CAND] + CAND_ROWS, lits, proj_cache, onto=[CONF, ST])
+            if pr is not None and pr[0] == "fixed":
+                got["best_params"] = CAND
+                ok = replaced() or (rel == 0 and agrees(kept))
         checked.add("incumbent")
         if not ok:
             for b in BEST_FIELDS:
-                if got[b] is None or _unread(got[b]) or not (same_ingredients(got[b], improved[b], ("old",)) or same_ingredients(got[b], kept[b])):
+                if got[b] is None or _unread(got[b]) or not (any(same_ingredients(got[b], v_[b], ("old",)) for v_ in variants) or same_ingredients(got[b], kept[b])):
                     raise AnalysisError(f"{q}: {b} := `{got[b].canon()[:80] if got[b] is not None else None}` (unrecognised form)")
             want_txt = "replaced as a whole by the evaluated candidate (fitness, iteration, parameters of index it % population)" if rel < 0 else "kept as a whole" if rel > 0 else "replaced or kept as a whole"
             viol.setdefault("incumbent", (f"{ {b: got[b].canon()[:50] for b in BEST_FIELDS} } in the world [{model.describe(w)}]",
@@ -277,9 +329,215 @@ def r2_feedback_table(ck, repo, nf):
                         else:
                             ck.ob("R2-incumbent", qual, f"foreign-writer:{tg.attr}", False, short(n), "the incumbent may only be written by set_evaluation_feedback", loc(mi2, n))
     _incumbent_is_a_value(ck, repo, q, fn, mi, POP)
+
+
+# ---- R2: the candidate handed out is the stored sample ------------------------------------------------------------------------------------------
+NON_IDENTITY = ("clip", "minimum", "maximum", "tanh", "round", "floor", "abs", "where")
+IDEMPOTENT = ("clip", "minimum", "maximum", "abs", "round", "floor")      # f(f(x, *rest), *rest) == f(x, *rest)
+RAW_DRAWS = ("multivariate_normal", "normal")                              # draws with unbounded support: no projection fixes them
+VALUE_PRESERVING = ("asarray", "array", "copy")
+_NONE_TEST = re.compile(r"^(Is|IsNot)\((.+), None\)$")
+
+
+def _none_literal(f):
+    """(subject, is_none) when a path condition is `subject is None` / `subject is not None` (possibly negated), else None."""
+    pol = True
+    while f[0] == "not":
+        f, pol = f[1], not pol
+    if f[0] == "opaque":
+        m = _NONE_TEST.match(f[1])
+        if m:
+            return m.group(2), pol == (m.group(1) == "Is")
+    return None
+
+
+def _flag_none_tests(f, flags, accept):
+    """The path condition with every `subject is None` / `is not None` test on an accepted subject replaced by the truth of a flag atom
+    (one per subject, collected in ``flags``): a boolean that an order model can enumerate."""
+    k = f[0]
+    if k == "opaque":
+        m = _NONE_TEST.match(f[1])
+        if m and accept(m.group(2)):
+            t = ("truth", flags.setdefault(m.group(2), Poly.atom(f"⟨{m.group(2)} is None⟩")))
+            return t if m.group(1) == "Is" else ("not", t)
+        return f
+    if k == "not":
+        return ("not", _flag_none_tests(f[1], flags, accept))
+    if k in ("and", "or"):
+        return (k, tuple(_flag_none_tests(g, flags, accept) for g in f[1]))
+    return f
+
+
+def _compatible(conds_a, conds_b):
+    """Can the two paths (of two functions that receive the same objects) be taken with one configuration?  Only `x is None` tests are
+    read: two paths are incompatible when they test the same subject with opposite outcomes; every other condition is left free."""
+    lits = {}
+    for f in list(conds_a) + list(conds_b):
+        l_ = _none_literal(f)
+        if l_ is None:
+            continue
+        if lits.setdefault(l_[0], l_[1]) != l_[1]:
+            return False
+    return True
+
+
+def _strip_value_preserving(nf, p):
+    """asarray(x) / array(x) / x.copy() hold the value of x."""
+    for _ in range(4):
+        m_ = nf.meta.get(p.single_atom() or "", {})
+        if m_.get("fn", "").split(".")[-1] in VALUE_PRESERVING and len(m_.get("args") or []) == 1 and not m_.get("kws"):
+            p = m_["args"][0]
+        else:
+            break
+    return p
+
+
+def _mapped_env(fn, onto):
+    """Environment in which the leading parameters of ``fn`` denote the objects named ``onto`` (parameters of another function that
+    receives the same objects)."""
+    env = _env(fn)
+    for p_, o_ in zip(param_names(fn), onto):
+        env[p_] = Poly.atom(o_, {o_}, {o_})
+    return env
+
+
+def _stored_sample_values(repo, nf, gfn, onto=None):
+    """What `population.samples` holds when get_next_parameters reads it, as (path conditions, value) per path of the routine that fills
+    it, written over the parameters (config, state) of get_next_parameters (or the names ``onto`` of the same objects).  Read from train_cmaes: every definition of the population
+    that reaches the get_next_parameters call is Population.create(samples=sample_population(config, state)) / Population(samples=...)
+    with the same config object.  AnalysisError (undecided) when the flow is written in another way."""
+    q = CM + "train_cmaes"
+    fn = repo.func(q)
+    mi = fn._module
+    cfg = nf.cfg_of(fn)
+    gp = param_names(gfn)
+    sq = CM + "sample_population"
+    sfn0 = repo.func(sq)
+    sp = param_names(sfn0)
+    if len(sp) < 2:
+        raise AnalysisError(f"{sq}: signature changed (anchor vanished)")
+
+    def resolves(c, *targets):
+        return isinstance(c, ast.Call) and isinstance(c.func, (ast.Name, ast.Attribute)) and repo.resolve_expr(mi, c.func) in targets
+    gcalls = [(n, c) for n in cfg.nodes if n.ast is not None and n.kind == "stmt" for c in ast.walk(n.ast) if resolves(c, CM + "get_next_parameters")]
+    if not gcalls:
+        raise AnalysisError(f"{q}: no call of get_next_parameters - where the handed-out population comes from is not read (unrecognised form)")
+    create = repo.method(CM + "Population", "create")
+    for gn, gc in gcalls:
+        gb = bind_call(gfn, gc)
+        pop_e, conf_e = gb.get(gp[2]), gb.get(gp[0])
+        if not isinstance(pop_e, ast.Name) or conf_e is None:
+            raise AnalysisError(f"{q}: `{short(gc, 60)}` - the population handed to get_next_parameters is not a variable (unrecognised form)")
+        conf_o = _object_of(cfg, conf_e, gn.id)
+        for d in cfg.defs_of(gn.id, pop_e.id):
+            v = d.value if d.kind == "assign" else None
+            smp = None
+            if resolves(v, CM + "Population.create") and create is not None:
+                cb = bind_call(create[1], v, skip_self=True)
+                cpar = [p_ for p_ in param_names(create[1]) if p_ not in ("cls", "self")]
+                smp = cb.get(cpar[0]) if cpar else None
+            elif resolves(v, CM + "Population"):
+                smp = _record_position(repo, mi, v, 0)
+            at = d.node
+            for _hop in range(4):
+                if isinstance(smp, ast.Name):
+                    ds = cfg.defs_of(at, smp.id)
+                    if len(ds) != 1 or ds[0].kind != "assign":
+                        break
+                    smp, at = ds[0].value, ds[0].node
+            if not resolves(smp, sq):
+                raise AnalysisError(f"{q}: the samples of the population handed to get_next_parameters `{short(v, 60) if v is not None else pop_e.id}` are not read as sample_population(...) (unrecognised form)")
+            sb = bind_call(sfn0, smp)
+            so = _object_of(cfg, sb[sp[0]], at) if sb.get(sp[0]) is not None else None
+            if conf_o is None or so is None or so != conf_o:
+                raise AnalysisError(f"{q}: whether sample_population and get_next_parameters receive the same configuration is not known (unrecognised form)")
+    sfn = split_conditional_assignments(sfn0)
+    scfg = nf.cfg_of(sfn)
+    out = []
+    for sm in summarise_paths(nf, scfg, sfn._module, sq, _mapped_env(sfn, list(onto or gp[:2])), {}):
+        if sm.ret is None:
+            raise AnalysisError(f"{sq}: path without return value (unrecognised form)")
+        out.append((sm.conds, _strip_value_preserving(nf, sm.ret)))
+    return out, sfn
+
+
+def _mean_averages_stored_samples(repo, nf):
+    """Does update_search_distribution build the new mean, on every path, from the rows of `population.samples` as they are stored
+    (the documented recombination)?  None when a mean is written in a form that is not read."""
+    q = CM + "update_search_distribution"
+    fn = repo.func(q)
+    mi = fn._module
+    cfg = nf.cfg_of(fn)
+    env = _env(fn)
+    CONF, ST, POP = param_names(fn)[:3]
+    olds = {f"{ST}.{k}": Poly.atom(f"old.{ST}.{k}") for k in ("mean", "last_mean", "var", "ps", "pc", "cov", "invsqrtC", "it", "eigen_decomp_updated")}
+    want_means = _recombinations(nf, Scope(None, mi, env, q), CONF, _selection_specs(CONF, POP, "best"))
+    seen = set()
+    for p in enumerate_paths(cfg, cfg.entry, {cfg.exit}):
+        pe = PathEval(nf, cfg, mi, q, env)
+        pe.store = dict(olds)
+        pe.run(p)
+        mean = pe.store[f"{ST}.mean"]
+        if mean.canon() in seen:
+            continue
+        seen.add(mean.canon())
+        if not any(mean == w_ for w_ in want_means):
+            return None
+    return bool(seen)
+
+
+def _projection_of_stored_row(repo, nf, gfn, g, wants, conds, cache, onto=None):
+    """Is ``g`` a projection f(stored row k, *rest) of the candidate (clip / minimum / abs / ...)?  None when it is not of that form.
+    Otherwise ("fixed", f): the rows that the sampling routine stores are already f(., *rest) on every compatible path, so f is the
+    identity on them (idempotent re-projection); ("raw", f): on a compatible path the stored rows are the raw draw of the search
+    distribution *and* update_search_distribution recombines the stored rows - positive evidence that the evaluated points are not the
+    recombined ones.  AnalysisError when neither is established."""
+    gq = CM + "get_next_parameters"
+    m_ = nf.meta.get(g.single_atom() or "", {})
+    wf = m_.get("fn", "").split(".")[-1]
+    at_ = [i for i, a_ in enumerate(m_.get("args") or []) if any(a_ == w_ for w_ in wants)]
+    if not (wf in NON_IDENTITY and len(at_) == 1 and not m_.get("kws") and not _unread(g)):
+        return None
+    rest = [a_ for i, a_ in enumerate(m_["args"]) if i != at_[0]]
+    ck_ = ("stored", tuple(onto or ()))
+    if ck_ not in cache:
+        cache[ck_] = _stored_sample_values(repo, nf, gfn, onto)[0]
+    feasible = [(c_, v_) for c_, v_ in cache[ck_] if _compatible(conds, c_)]
+    if not feasible:
+        raise AnalysisError(f"{gq}: no path of sample_population is compatible with the path that hands out `{g.canon()[:60]}` (unrecognised form)")
+
+    def kind(v_):
+        vm = nf.meta.get(v_.single_atom() or "", {})
+        vf = vm.get("fn", "").split(".")[-1]
+        if vf == wf and wf in IDEMPOTENT and not vm.get("kws") and len(vm.get("args") or []) == len(rest) + 1 and not _unread(v_):
+            if any([a_ for j, a_ in enumerate(vm["args"]) if j != i] == rest for i in range(len(vm["args"]))):
+                return "fixed"        # the stored rows are already f(., *rest): applying f again changes nothing
+        if vf in RAW_DRAWS and not _unread(v_):
+            return "raw"
+        return None
+    kinds = [kind(v_) for _c, v_ in feasible]
+    if all(k_ == "fixed" for k_ in kinds):
+        return "fixed", wf
+    if "raw" in kinds:
+        if _mean_averages_stored_samples(repo, nf) is not True:
+            raise AnalysisError(f"{gq}: `{g.canon()[:80]}` is handed out while the mean of update_search_distribution is not read as the recombination of the stored samples (unrecognised form)")
+        return "raw", wf
+    raise AnalysisError(f"{gq}: `{g.canon()[:80]}` is handed out - whether the stored samples are fixed points of this projection is not known (unrecognised form)")
+
+
+_WHY_PROJECTED = ("the candidate that is evaluated is {f}(population.samples[k], ...) while population.samples holds the raw draw of the search distribution and "
+                  "update_search_distribution averages the stored rows: the mean (and every stored quantity read from population.samples) is built from points that were never evaluated")
+
+
+def r2_handed_out(ck, repo, nf):
+    """The point that is evaluated and the point that enters the distribution update are one value: get_next_parameters hands out row
+    k = it % population of the stored samples as it is.  A projection around it (clip / minimum / ...) is the identity exactly when the
+    stored samples were already projected in the same way (idempotent re-projection, compared as normal forms with the sampling routine,
+    paths correlated by their `bounds is None` guards); it is a violation when the stored samples are the raw draw of the search
+    distribution and the mean is averaged from the stored rows: the evaluated points are then not the ones that are recombined."""
     gq = CM + "get_next_parameters"
     gfn = split_conditional_assignments(repo.func(gq))
-    ck._keep.append(gfn)
+    ck._keep = getattr(ck, "_keep", []) + [gfn]      # the CFG cache is keyed by id(fn)
     gp = param_names(gfn)
     ck.need(len(gp) >= 3, f"{gq}: signature changed (anchor vanished)")
     gcfg = nf.cfg_of(gfn)
@@ -287,19 +545,23 @@ def r2_feedback_table(ck, repo, nf):
     # row k of the (population, parameters) matrix: samples[k] == samples[k, :] == samples[k, ...]
     wants = [nf.poly(parse_expr(f"{gp[2]}.samples[{gp[1]}.it % {gp[0]}.n_samples_per_update{rest}]"), Scope(None, gfn._module, genv, gq), None) for rest in ("", ", :", ", ...")]
     want = wants[0]
-    NON_IDENTITY = ("clip", "minimum", "maximum", "tanh", "round", "floor", "abs", "where")
+    cache = {}
     for sm in summarise_paths(nf, gcfg, gfn._module, gq, genv, {}):
-        g = sm.ret
-        ck.need(g is not None, f"{gq}: path without return value")
+        ck.need(sm.ret is not None, f"{gq}: path without return value")
+        g = _strip_value_preserving(nf, sm.ret)
         ok = any(g == w_ for w_ in wants)
         why = "the candidate handed out must be the one whose feedback index is it % population"
+        construct = f"return {g.canon()[:100]}"
         if not ok:
-            m_ = nf.meta.get(g.single_atom() or "", {})
-            if m_.get("fn", "").split(".")[-1] in NON_IDENTITY and m_.get("args") and any(a_ == w_ for a_ in m_["args"][:2] for w_ in wants):
-                why = f"the candidate handed out is {m_['fn'].split('.')[-1]}(population.samples[k], ...), not the stored sample: the incumbent and the mean are then built from points that were never evaluated"
+            pr = _projection_of_stored_row(repo, nf, gfn, g, wants, sm.conds, cache)
+            if pr is not None and pr[0] == "fixed":
+                ok = True
+                construct += "  (idempotent: sample_population stores rows that are already projected in the same way)"
+            elif pr is not None:
+                why = _WHY_PROJECTED.format(f=pr[1])
             elif _unread(g) or not same_ingredients(g, want):
                 raise AnalysisError(f"{gq}: returns `{g.canon()[:80]}` (unrecognised form)")
-        ck.ob("R2-incumbent", gq, "same-index-as-feedback", ok, f"return {g.canon()[:100]}", "" if ok else why, loc(gfn._module, gfn))
+        ck.ob("R2-incumbent", gq, "same-index-as-feedback", ok, construct, "" if ok else why, loc(gfn._module, gfn))
 
 
 def _is_state_class(repo, cq):
@@ -372,6 +634,7 @@ def _hidden_effect_calls(repo, fn, mi, names):
 INPLACE_METHODS = ("fill", "sort", "put", "partition", "itemset", "resize", "setfield", "__setitem__")
 INPLACE_FUNCS = ("numpy.copyto", "numpy.put", "numpy.place", "numpy.putmask", "numpy.put_along_axis")
 COPIES = ("copy", "array", "asarray", "deepcopy", "tolist", "tuple", "list", "device_put")
+COMPUTED = ("clip", "minimum", "maximum", "tanh", "round", "floor", "abs", "where", "add", "subtract", "multiply", "negative")
 
 
 def _host_array_field(repo, mi, fields):
@@ -400,32 +663,43 @@ def _incumbent_is_a_value(ck, repo, q, fn, mi, POP):
     if not stores:
         raise AnalysisError(f"{q}: no assignment to best_params (anchor vanished)")
 
-    def resolve_local(e, depth=0):
-        if isinstance(e, ast.Name) and depth < 4:
-            ds = [n for n in ast.walk(fn) if isinstance(n, ast.Assign) and any(isinstance(t, ast.Name) and t.id == e.id for t in n.targets)]
-            if len(ds) == 1:
-                return resolve_local(ds[0].value, depth + 1)
-        return e
+    def definitions(e):
+        """Expressions a local may hold (every plain assignment to it in the routine); the expression itself when it is not a local."""
+        if isinstance(e, ast.Name):
+            ds = [n.value for n in ast.walk(fn) if isinstance(n, ast.Assign) and any(isinstance(t, ast.Name) and t.id == e.id for t in n.targets)]
+            if ds and not any(isinstance(n, (ast.AugAssign, ast.AnnAssign, ast.For, ast.With, ast.NamedExpr)) and any(isinstance(t, ast.Name) and t.id == e.id and isinstance(t.ctx, ast.Store) for t in ast.walk(n)) for n in ast.walk(fn)):
+                return ds
+        return [e]
+
+    def origins(e, copied=False, depth=0):
+        """(copied?, root expression) alternatives of a stored value: locals followed through all their definitions, copies / element-wise
+        results peeled (their result is a new array), subscripts peeled (an index into an array is a view of it)."""
+        if depth > 8:
+            return [(copied, e)]
+        if isinstance(e, ast.Name):
+            ds = definitions(e)
+            if ds != [e]:
+                return [o for d in ds for o in origins(d, copied, depth + 1)]
+            return [(copied, e)]
+        if isinstance(e, ast.Call):
+            d_ = dotted(e.func) or ""
+            if d_.split(".")[-1] in COPIES and (e.args or isinstance(e.func, ast.Attribute)):
+                return origins(e.args[0] if e.args else e.func.value, True, depth + 1)
+            if d_.split(".")[-1] in COMPUTED and e.args and not any(k_.arg == "out" for k_ in e.keywords):
+                return origins(e.args[0], True, depth + 1)       # an element-wise result is a new array, not a view of its operand
+            return [(copied, e)]
+        if isinstance(e, ast.Subscript):
+            return origins(e.value, copied, depth + 1)
+        return [(copied, e)]
     fields, views = set(), []
     for st_, stored in stores:
-        v = resolve_local(stored)
-        copied = False
-        while isinstance(v, ast.Call):
-            d_ = dotted(v.func) or ""
-            if d_.split(".")[-1] in COPIES and (v.args or isinstance(v.func, ast.Attribute)):
-                copied = True
-                v = resolve_local(v.args[0] if v.args else v.func.value)
-            else:
-                break
-        base = v
-        while isinstance(base, ast.Subscript):
-            base = resolve_local(base.value)
-        if isinstance(base, ast.Attribute) and isinstance(base.value, ast.Name) and base.value.id == POP:
-            fields.add(base.attr)
-            if not copied:
-                views.append((st_, base.attr))
-        elif not copied:
-            raise AnalysisError(f"{q}: best_params := `{short(stored, 60)}` - where the stored parameters come from is not recognised")
+        for copied, base in origins(stored):
+            if isinstance(base, ast.Attribute) and isinstance(base.value, ast.Name) and base.value.id == POP:
+                fields.add(base.attr)
+                if not copied:
+                    views.append((st_, base.attr))
+            elif not copied:
+                raise AnalysisError(f"{q}: best_params := `{short(stored, 60)}` - where the stored parameters come from is not recognised")
     # in-place writers of that field anywhere in the module
     writers, maybe = [], []
     for qual, f2, mi2 in repo.all_functions():
@@ -504,6 +778,45 @@ def _record_position(repo, mi, call: ast.Call, pos: int):
     return next((k.value for k in call.keywords if k.arg == fields[pos]), None)
 
 
+def _written_candidate(ck, repo, nf, q, cfg, mi, gn_fn, gb, wrappers, fbn, spc):
+    """The value written into the policy is the handed-out candidate: a projection applied to it in the training loop (same reading as
+    inside get_next_parameters: written over the parameters of get_next_parameters through the argument binding of its call)."""
+    if not wrappers:
+        return
+    gq = CM + "get_next_parameters"
+    gfn = split_conditional_assignments(gn_fn)
+    ck._keep = getattr(ck, "_keep", []) + [gfn]
+    gp = param_names(gfn)
+    genv = _env(gfn)
+    back = {a_.id: p_ for p_, a_ in gb.items() if p_ in gp[:3] and isinstance(a_, ast.Name)}      # local of the loop -> parameter it is passed as
+    if len(back) != 3:
+        raise AnalysisError(f"{q}: the arguments of get_next_parameters are not three distinct variables (unrecognised form)")
+    text = f"{gp[2]}.samples[{gp[1]}.it % {gp[0]}.n_samples_per_update]"
+    wants = [nf.poly(parse_expr(text), Scope(None, gfn._module, genv, gq), None)]
+
+    class _Ren(ast.NodeTransformer):
+        def visit_Name(self, n_):
+            if n_.id in back:
+                return ast.copy_location(ast.Name(id=back[n_.id], ctx=n_.ctx), n_)
+            return n_
+    for name, call, at in reversed(wrappers):
+        if not cfg.dominates(at, fbn.id):
+            raise AnalysisError(f"{q}: `{short(call, 60)}` is applied to the candidate on some paths only (unrecognised form)")
+        for x in [y for a_ in call.args[1:] + [k_.value for k_ in call.keywords] for y in ast.walk(a_) if isinstance(y, ast.Name)]:
+            if x.id not in back and cfg.defs_of(at, x.id):
+                raise AnalysisError(f"{q}: `{short(call, 60)}` uses the local `{x.id}` (unrecognised form)")
+        rest = [ast.unparse(_Ren().visit(parse_expr(ast.unparse(a_)))) for a_ in call.args[1:]] + [f"{k_.arg}={ast.unparse(_Ren().visit(parse_expr(ast.unparse(k_.value))))}" for k_ in call.keywords]
+        text = f"{ast.unparse(call.func)}({', '.join([text] + rest)})"
+    g = _strip_value_preserving(nf, nf.poly(parse_expr(text), Scope(None, gfn._module, genv, gq), None))
+    if any(g == w_ for w_ in wants):
+        return      # conversions only
+    pr = _projection_of_stored_row(repo, nf, gfn, g, wants, [], {})
+    if pr is None:
+        raise AnalysisError(f"{q}: the candidate is written into the policy as `{g.canon()[:80]}` (unrecognised form)")
+    ok = pr[0] == "fixed"
+    ck.ob("R2-incumbent", q, "sets-the-handed-out-candidate", ok, f"`{short(spc, 90)}` writes {g.canon()[:100]}", "" if ok else _WHY_PROJECTED.format(f=pr[1]), loc(mi, spc))
+
+
 def r2_train_loop(ck, repo, nf):
     from .c15 import _role_of_counter
     q = CM + "train_cmaes"
@@ -529,11 +842,22 @@ def r2_train_loop(ck, repo, nf):
     cand = spb.get(param_names(sp_fn)[1])
     cand_e, cand_at = cand, spn.id
     hops = 0
-    while isinstance(cand_e, ast.Name) and hops < 4:
-        ds = cfg.defs_of(cand_at, cand_e.id)
-        if len(ds) != 1 or ds[0].kind != "assign":
+    wrappers = []       # projections / conversions applied to the handed-out candidate on its way into the policy: (name, call, node)
+    while hops < 8:
+        hops += 1
+        if isinstance(cand_e, ast.Name):
+            ds = cfg.defs_of(cand_at, cand_e.id)
+            if len(ds) != 1 or ds[0].kind != "assign":
+                break
+            cand_e, cand_at = ds[0].value, ds[0].node
+        elif isinstance(cand_e, ast.Call) and isinstance(cand_e.func, (ast.Name, ast.Attribute)) and repo.resolve_expr(mi, cand_e.func) != CM + "get_next_parameters" and cand_e.args \
+                and not any(isinstance(a_, ast.Starred) for a_ in cand_e.args) and not any(k_.arg is None for k_ in cand_e.keywords) \
+                and (repo.resolve_expr(mi, cand_e.func) or "").rpartition(".")[0] in ("jax.numpy", "numpy") \
+                and (repo.resolve_expr(mi, cand_e.func) or "").split(".")[-1] in tuple(x for x in NON_IDENTITY if x != "where") + VALUE_PRESERVING:
+            wrappers.append(((repo.resolve_expr(mi, cand_e.func) or "").split(".")[-1], cand_e, cand_at))
+            cand_e = cand_e.args[0]
+        else:
             break
-        cand_e, cand_at, hops = ds[0].value, ds[0].node, hops + 1
     ck.need(isinstance(cand_e, ast.Call) and isinstance(cand_e.func, (ast.Name, ast.Attribute)) and repo.resolve_expr(mi, cand_e.func) == CM + "get_next_parameters",
             f"{q}: the parameters written into the policy `{short(cand_e, 60) if cand_e is not None else None}` are not the result of get_next_parameters (unrecognised form)")
     gb = bind_call(gn_fn, cand_e)
@@ -553,6 +877,7 @@ def r2_train_loop(ck, repo, nf):
     ok = same_objs and order
     ck.ob("R2-incumbent", q, "evaluates-what-it-sets", ok, f"`{short(spc, 70)}` ... `{short(fbc, 70)}`",
           "" if ok else "each episode must evaluate the candidate that was written into the policy: same config / state / population between get_next_parameters and set_evaluation_feedback, in this order", loc(mi, fbc))
+    _written_candidate(ck, repo, nf, q, cfg, mi, gn_fn, gb, wrappers, fbn, spc)
     ret_arg = fbb.get(fparams[3])
     while isinstance(ret_arg, ast.Call) and isinstance(ret_arg.func, (ast.Name, ast.Attribute)) and len(ret_arg.args) == 1 and not ret_arg.keywords \
             and (repo.resolve_expr(mi, ret_arg.func) or dotted(ret_arg.func) or "").split(".")[-1] in ("float", "asarray", "array"):
@@ -1352,6 +1677,7 @@ def run(ck, repo: Repo, tier: str):
     nf = NF(repo, inline_depth=2)
     ck.guard(r1_weights, ck, repo, nf)
     ck.guard(r2_feedback_table, ck, repo, nf)
+    ck.guard(r2_handed_out, ck, repo, nf)
     ck.guard(r2_nan_candidate, ck, repo, nf)
     ck.guard(r2_train_loop, ck, repo, nf)
     ck.guard(r34_update, ck, repo, nf)
@@ -1405,6 +1731,15 @@ MUTANTS = [
     {"id": "c16-cem-no-selection", "file": _X, "rule": "R6", "find": "    elites = jnp.take(samples, top_k, axis=0)\n", "replace": "    elites = samples\n"},
     {"id": "c16-rank-mu-asymmetric", "file": _C, "rule": "R7", "find": "    rank_mu_update = noise.T.dot(jnp.diag(config.weights)).dot(noise)", "replace": "    rank_mu_update = noise.T.dot(jnp.diag(config.weights)).dot(update_samples)"},
     {"id": "c16-cap-removed-product", "file": _C, "rule": "R4", "find": "    state.var = state.var * jnp.exp(min((0.6, log_step_size_update))) ** 2", "replace": "    step = jnp.exp(log_step_size_update)\n    state.var = state.var * step * step"},
+    # the evaluated point and the recombined point are one value (two cooperating sites: the projection moves from sampling to hand-out)
+    {"id": "c16-handout-projects-raw-draw", "file": _C, "rule": "R2", "edits": [("    if config.bounds is not None:\n        samples = jnp.clip(samples, config.bounds[:, 0], config.bounds[:, 1])\n", ""),
+        ("    return population.samples[k]", "    row = population.samples[k]\n    if config.bounds is not None:\n        row = jnp.minimum(jnp.maximum(row, config.bounds[:, 0]), config.bounds[:, 1])\n    return row")]},
+    {"id": "c16-handout-abs-of-raw-draw", "file": _C, "rule": "R2", "find": "    return population.samples[k]", "replace": "    return jnp.abs(population.samples[k])"},
+    # a guard on an optional configuration field is read as a free boolean of the table: the incumbent is only tracked without bounds
+    {"id": "c16-incumbent-only-unbounded", "file": _C, "rule": "R2", "find": "    if fitness_k <= state.best_fitness:", "replace": "    if config.bounds is None and fitness_k <= state.best_fitness:"},
+    {"id": "c16-train-projects-handed-out", "file": _C, "rule": "R2", "edits": [("    if config.bounds is not None:\n        samples = jnp.clip(samples, config.bounds[:, 0], config.bounds[:, 1])\n", ""),
+        ("        set_params(policy, get_next_parameters(config, state, population))", "        proposal = get_next_parameters(config, state, population)\n        set_params(policy, jnp.minimum(jnp.maximum(proposal, config.bounds[:, 0]), config.bounds[:, 1]))")]},
+    {"id": "c16-incumbent-params-swapped-projection", "file": _C, "rule": "R2", "find": "        state.best_params = population.samples[k]", "replace": "        state.best_params = population.samples[k]\n        if config.bounds is not None:\n            state.best_params = population.samples[k - 1]"},
 ]
 BENIGN = [
     {"id": "c16-b-incumbent-min-best-first", "file": _C, "find": '    if fitness_k <= state.best_fitness:\n        state.best_fitness = fitness_k\n', "replace": '    previous_best = state.best_fitness\n    state.best_fitness = min(state.best_fitness, fitness_k)\n    if fitness_k <= previous_best:\n'},
@@ -1432,4 +1767,16 @@ BENIGN = [
     {"id": "c16-b-next-row", "file": _C, "find": "    return population.samples[k]", "replace": "    return population.samples[k, :]"},
     {"id": "c16-b-maximize-constant", "file": _C, "edits": [("@struct.dataclass\nclass CMAESConfig:", "_MAXIMIZE_RETURN = True\n\n\n@struct.dataclass\nclass CMAESConfig:"), ("        maximize=True,\n        min_variance=2", "        maximize=_MAXIMIZE_RETURN,\n        min_variance=2")]},
     {"id": "c16-b-incumbent-order", "file": _C, "find": "        state.best_fitness = fitness_k\n        state.best_fitness_it = state.it\n", "replace": "        state.best_fitness_it = state.it\n        state.best_fitness = fitness_k\n"},
+    # hand-out / bookkeeping forms the rules read (idempotent re-projection, value-preserving conversions, guards on optional fields)
+    {"id": "c16-b-handout-reprojected", "file": _C, "find": "    return population.samples[k]", "replace": "    candidate = population.samples[k]\n    if config.bounds is None:\n        return candidate\n    return jnp.clip(candidate, config.bounds[:, 0], config.bounds[:, 1])"},
+    {"id": "c16-b-handout-asarray", "file": _C, "find": "    return population.samples[k]", "replace": "    return jnp.asarray(population.samples[k])"},
+    {"id": "c16-b-incumbent-is-handout", "file": _C, "find": "        state.best_params = population.samples[k]", "replace": "        state.best_params = get_next_parameters(config, state, population)"},
+    {"id": "c16-b-feedback-bounds-guard", "file": _C, "find": "        state.best_params = population.samples[k]", "replace": "        if config.bounds is None:\n            state.best_params = population.samples[k]\n        else:\n            state.best_params = population.samples[k, :]"},
+    {"id": "c16-b-train-candidate-converted", "file": _C, "find": "        set_params(policy, get_next_parameters(config, state, population))", "replace": "        proposal = get_next_parameters(population=population, config=config, state=state)\n        set_params(policy, jnp.asarray(proposal))"},
+    {"id": "c16-b-handout-reprojected-population-temporaries", "file": _C, "edits": [("    return population.samples[k]", "    x = population.samples[k]\n    return x if config.bounds is None else jnp.clip(x, config.bounds[:, 0], config.bounds[:, 1])"),
+        ("            population = Population.create(\n                samples=sample_population(config, state)\n            )\n", "            drawn = sample_population(config=config, state=state)\n            population = Population(samples=drawn, fitness=[np.inf] * len(drawn))\n")]},
+    {"id": "c16-b-incumbent-defensive-reprojection", "file": _C, "find": "        state.best_params = population.samples[k]", "replace": "        winner = population.samples[k]\n        if config.bounds is not None:\n            winner = jnp.clip(winner, config.bounds[:, 0], config.bounds[:, 1])\n        state.best_params = winner"},
+    {"id": "c16-b-sample-helper-projection", "file": _C, "edits": [("def sample_population(config: CMAESConfig, state: CMAESState) -> jnp.ndarray:", "def _into_box(config, x):\n    if config.bounds is None:\n        return x\n    return jnp.clip(x, config.bounds[:, 0], config.bounds[:, 1])\n\n\ndef sample_population(config: CMAESConfig, state: CMAESState) -> jnp.ndarray:"),
+        ("    if config.bounds is not None:\n        samples = jnp.clip(samples, config.bounds[:, 0], config.bounds[:, 1])\n    return samples", "    return _into_box(config, samples)"),
+        ("    return population.samples[k]", "    return _into_box(config, population.samples[k])")]},
 ]
